@@ -1376,6 +1376,7 @@ def rule_a12(ctx):
                  "created (the transports' p_send / p_recv slots are entered for one operation per direction at a time: that "
                  "is the pipe contract the protocols keep) -- a second operation stored over a waiting one leaves the first "
                  "without anybody to complete it, and the object's list node is linked twice", floor=12)
+    r.follows_values = True
     prog = ctx.prog
     slots = prog.slots()
     contract = {x[0] for k in ("nni_sp_pipe_ops.p_send", "nni_sp_pipe_ops.p_recv") for x in slots.get(k, [])}
@@ -1473,6 +1474,93 @@ def rule_a12(ctx):
 
 
 
+A13_ACCESSORS = ("nni_aio_get_msg", "nni_aio_set_msg", "nni_aio_count", "nni_aio_result", "nni_aio_list_active", "nni_aio_list_remove",
+                 "nni_list_remove", "nni_list_node_remove", "nni_list_first", "nni_list_next", "nni_list_active", "nni_aio_get_input",
+                 "nni_aio_get_output", "nni_aio_set_output", "nni_aio_get_iov", "nni_aio_iov_count", "nni_aio_iov_advance",
+                 "nni_aio_get_prov_data", "nni_aio_set_prov_data", "nni_aio_bump_count", "nni_aio_get_timeout", "nni_aio_busy")
+
+
+def rule_a13(ctx):
+    from .. import guards as G
+    r = ctx.rule("C02.A13", "T4", "an operation unlinked from its wait list is completed, queued again or handed on: wherever a function "
+                 "takes an aio held in a local off a list (nni_aio_list_remove / nni_list_remove), every path from there to the "
+                 "function's exit -- or to the next assignment of that local, e.g. the next round of a serving loop -- passes "
+                 "the aio to a function that is not a mere accessor (nni_aio_finish*, a list append, a helper), stores it into "
+                 "an object or returns it (paths on which the local was found NULL are not paths of a removed aio). Cancel, "
+                 "timeout, stop and close all look for the operation on its list: once it is off the list and dropped nobody "
+                 "can complete it, and nni_aio_stop on it waits for ever", floor=90)
+    r.follows_values = True
+    prog = ctx.prog
+    n = 0
+    for f in prog.functions:
+        if f.cfg_failed or f.file.endswith("_test.c"):
+            continue
+        for c in f.calls(("nni_aio_list_remove", "nni_list_remove")):
+            a = [f.expand(x) if x is not None else None for x in c.node["args"]]
+            av = a[0] if c.node["fn"] == "nni_aio_list_remove" else (a[1] if len(a) > 1 else None)
+            if av is None or av.get("k") != "var" or av.get("vk") != "local":
+                continue
+            v = av["n"]
+            if "aio" not in ((f.locals().get(v) or {}).get("t") or ""):
+                continue
+            n += 1
+
+            def stores_v(m, v=v):
+                if m.get("k") == "asg" and m["lhs"].get("k") != "var":
+                    rr = m["rhs"]
+                    while rr is not None and rr.get("k") == "cast":
+                        rr = rr["e"]
+                    rr = f.expand(rr) if rr is not None else None
+                    return rr is not None and rr.get("k") == "var" and rr["n"] == v
+                return False
+
+            def handoff(b, i, e, v=v):
+                if e is None:
+                    return False
+                for m in walk(f.expand(e)):
+                    if m.get("k") == "call" and m.get("fn") not in A13_ACCESSORS:
+                        for x in m["args"]:
+                            x = f.expand(x) if x is not None else None
+                            if x is not None and x.get("k") == "var" and x["n"] == v:
+                                return True
+                    if stores_v(m):
+                        return True
+                    if m.get("k") == "ret" and m.get("e") is not None and any(
+                            y.get("k") == "var" and y["n"] == v for y in walk(f.expand(m["e"]))):
+                        return True
+                return False
+
+            def redefined(e, v=v):
+                return e is not None and any(m.get("k") == "asg" and m["lhs"].get("k") == "var" and m["lhs"]["n"] == v
+                                             for m in walk(f.expand(e)))
+            # already stored into an object in the same block, just before it is unlinked (the expiry batch)
+            blk = f.blocks[c.b]
+            if any(e is not None and any(stores_v(m) for m in walk(f.expand(e))) for e in blk.elems[:c.i]) and \
+                    not any(redefined(e) for e in blk.elems[:c.i]):
+                r.ob(f, "%s stored into an object before it is unlinked at line %s" % (v, c.line))
+                continue
+            nz = G.nz_edges(f, lambda x, v=v: x.get("k") == "var" and x["n"] == v)
+            seen = f.reach((c.b, c.i + 1), blocked=handoff, edge_ok=lambda b, k: not (b in nz and k == 1 - nz[b]))
+            lost = None
+            if (f.exit, 0) in seen:
+                lost = "the function's exit"
+            else:
+                for (b, i) in sorted(seen):
+                    if i < len(f.blocks[b].elems) and redefined(f.blocks[b].elems[i]):
+                        lost = "line %s, where %s is assigned again" % (f.line_of(b, i), v)
+                        break
+            if lost:
+                ctx.fail(r, f, "aio %s unlinked and dropped" % v, c.line,
+                         "%s takes the operation %s off its wait list (line %s) and reaches %s on a path that neither completes it "
+                         "nor queues it again nor hands it on: cancel, timeout and close look for it on the list, so it never "
+                         "completes" % (f.name, v, c.line, lost))
+            else:
+                r.ob(f, "%s unlinked at line %s is completed, queued again or handed on along every path" % (v, c.line))
+    if n < 90:
+        raise AnalysisBroken("only %d removals of an aio from a wait list found" % n)
+
+
+
 def run(ctx):   # noqa: F811
     ctx.guard(rule_a1)
     ctx.guard(rule_a2)
@@ -1492,3 +1580,4 @@ def run(ctx):   # noqa: F811
     ctx.guard(rule_a10)
     ctx.guard(rule_a11)
     ctx.guard(rule_a12)
+    ctx.guard(rule_a13)
